@@ -9,6 +9,7 @@ import Driver.Fam.ControlCommon
 import PgVerif.Model.ControlView
 import PgVerif.Model.ControlOrig
 import PgVerif.Gen.Control
+import PgVerif.Spec.ControlAnchor
 namespace Driver.Fam
 open PgVerif Driver
 
@@ -258,5 +259,33 @@ def controlAnyGen (seed idx _size : Nat) : Case :=
     spec := "-", args := [hexRle file] }
 
 def controlAny : Family := { name := "control_any", gen := controlAnyGen, eval := controlEval, fixed := 8 }
+
+/-! ### control_pg10: the genuine PostgreSQL 10 file (corpus), whole file and bare struct.
+    Expected values read off the file independently (hexdump / struct.unpack), for the fields whose offsets
+    PostgreSQL 10 shares with 12–16 (header up to checkPoint@32, everything from floatFormat@208 on). -/
+
+def showPg10 : Option Model.ControlFile → String
+  | none => "err"
+  | some f =>
+    s!"sysid={f.systemIdentifier};cv={f.pgControlVersion};cat={f.catalogVersionNo};state={f.state};ss={f.stateString};" ++
+    s!"ckpt={f.checkpointLSN};blck={f.blockSize};relseg={f.blocksPerSeg};xblck={f.walBlockSize};" ++
+    s!"xseg={f.walSegmentSize};namelen={f.nameDataLen};idxkeys={f.indexMaxKeys};toast={f.toastMaxChunk};" ++
+    s!"lo={f.largeObjectChunk};ffok={b2s f.floatFormatOK};cksum={b2s f.dataChecksumsEnabled};crc={f.crc};crcok={b2s f.crcValid}"
+
+def pg10Expected : String :=
+  "sysid=6667799892826839211;cv=1002;cat=201707211;state=6;ss=in production;ckpt=6/94000268;blck=8192;" ++
+  "relseg=131072;xblck=8192;xseg=16777216;namelen=64;idxkeys=32;toast=1996;lo=2048;ffok=1;cksum=1;crc=3678281764;crcok=1"
+
+def controlPg10Eval (args : List String) : String :=
+  match args with
+  | [file] => showM showPg10 (Model.parseControlFile (unhex file))
+  | _ => "bad-args"
+
+def controlPg10Gen (_seed idx _size : Nat) : Case :=
+  let file := if idx % 2 == 0 then Spec.pg10ControlImage ++ zeros 7896 else Spec.pg10ControlImage
+  { tags := ["nt", if idx % 2 == 0 then "len=8192" else "len=296"], model := controlPg10Eval [hexRle file],
+    spec := pg10Expected, args := [hexRle file] }
+
+def controlPg10 : Family := { name := "control_pg10", gen := controlPg10Gen, eval := controlPg10Eval, fixed := 2 }
 
 end Driver.Fam
